@@ -1565,6 +1565,26 @@ class Interp(object):
     def m_snap_keys(self, t, argv, kwv):
         return VKeys(t, 'keys')
 
+    def m_snap_get(self, t, argv, kwv):
+        # self.snapshots.get(k, default): the counter of k, or the default when k is not a snapshot id
+        key = argv[0]
+        default = argv[1] if len(argv) > 1 else VNone
+        if key.kind != 'int':
+            return default
+        if self.ctx.branch(t.g['SKey'][key.z], 'snap.get-hit'):
+            return VInt(t.g['SCnt'][key.z])
+        return default
+
+    def m_tte_setdefault(self, t, argv, kwv):
+        # self.time_to_edge.setdefault(k, {}): the entry of k, created as the given empty dict when k is missing
+        key = argv[0]
+        default = argv[1] if len(argv) > 1 else VNone
+        if key.kind != 'int':
+            raise Undecided('time_to_edge key of kind %s' % key.kind)
+        if not self.ctx.branch(t.g['TKey'][key.z], 'tte.setdefault-hit'):
+            self.setitem(t, key, default)
+        return self.getitem(t, key)
+
     def m_snap_items(self, t, argv, kwv):
         return VKeys(t, 'items')
 
